@@ -79,6 +79,8 @@ func init() {
 			{"reader-recursion", "reader call graph acyclic or token-guarded", ruleReaderRecursion},
 			{"init-body", "Body initialised on every successful Open path", ruleInitBody},
 			{"nil-guard", "Table.Grid dereferences are nil-guarded", ruleNilGuardGrid},
+			{"typed-nil", "readers whose result becomes an interface value never return (nil, nil)", ruleTypedNil},
+			{"untrusted-size", "no allocation on the Open path is sized from archive directory fields", ruleUntrustedSize},
 		},
 		Assumptions: append([]string{"Decoder.Token returns an error at end of input and consumes input on every successful call"}, commonAssumptions...),
 	}
